@@ -1418,8 +1418,16 @@ class Interp:
             el = self.elem_of(xs) if xs.k in ("list", "dict") else xs
             kf = args[1] if len(args) > 1 else kw.get("key")
             kv = self.call_closure(kf, [el], {}, cx) if (kf is not None and kf.k == "lambda") else el
+            # key=itemgetter(i) on tuples built component by component: the key is that component
+            knode = e.args[1] if len(e.args) > 1 else next((k_.value for k_ in e.keywords if k_.arg == "key"), None)
+            if isinstance(knode, ast.Call) and norm(knode.func).split(".")[-1] == "itemgetter" and len(knode.args) == 1 \
+                    and isinstance(knode.args[0], ast.Constant) and isinstance(knode.args[0].value, int) \
+                    and el.k == "list" and el.items and 0 <= knode.args[0].value < len(el.items):
+                kv = el.items[knode.args[0].value]
             grp = add_deps(el, kv.deps | xs.deps)
-            return V("list", elem=V("list", elem=grp), deps=xs.deps | kv.deps)
+            # (key, group) pairs
+            return V("list", elem=V("list", items=[add_deps(kv, xs.deps), V("list", elem=grp, deps=xs.deps | kv.deps)], elem=grp),
+                     deps=xs.deps | kv.deps)
         if n in self.record_types():
             names, dflts, _cls = self.record_types()[n]
             fields = {}
